@@ -25,6 +25,9 @@ package accumulation
 //@ -- (the antecedent only delays the assumption to the program point after Diagnostics, right before Export)
 //@ assume engine-leaves-well-formed-map (=> (>= (len (local diagnostics)) 0) (imOK (local inferredMap)))
 //@ assume engine-leaves-well-formed-upstream-snapshot (=> (>= (len (local diagnostics)) 0) (upOK (local inferredMap)))
+//@ assume enhanced-pass-is-not-nil (not (= (local pass) nil))
+//@ assume enhanced-pass-wraps-the-drivers-pass (not (= (. (local pass) Pass) nil))
+//@ assume diagnostic-engine-is-created (not (isnil (iface *diagnostic.Engine (local diagnosticEngine))))
 //@ assume driver-passes-nonnil-pass (=> (>= (len (local diagnostics)) 0) (and (not (= (local pass) nil)) (not (= (. (local pass) Pass) nil))))
 //@ ensures annotations-before-any-constraint (=> (> (calls "ObservePackage") 0)
 //@    (and (before "ObserveUpstream" "ObserveAnnotations") (before "ObserveAnnotations" "ObservePackage")
